@@ -295,18 +295,15 @@ Qed.
 
 (* ---------- nothing that the positional comparison accepted is lost ---------- *)
 Lemma inst_equiv_accept_key o c : inst_equiv o c = Accept ->
-  exists k, inst_key (op_inst o) = inr k /\ inst_key (op_inst c) = inr k.
+  inst_key (op_inst o) = inst_key (op_inst c).
 Proof.
   unfold inst_equiv. intro H. apply seq_accept in H as [H _]. unfold inst_key.
-  destruct (op_inst o) as [on|]; [|discriminate H].
-  destruct (starts_with asg_prefix on) eqn:Eo.
-  - destruct (op_inst c) as [cn|]; [|discriminate H].
-    destruct (starts_with asg_prefix cn) eqn:Ec.
-    + destruct (asg_width on) as [x|]; [|discriminate H]. destruct (asg_width cn) as [y|]; [|discriminate H].
-      apply check_accept in H. apply str_eqb_spec in H. subst y. eauto.
-    + apply check_accept in H. apply str_eqb_spec in H. subst cn. congruence.
-  - destruct (op_inst c) as [cn|]; [|discriminate H].
-    apply check_accept in H. apply str_eqb_spec in H. subst cn. rewrite Eo. eauto.
+  destruct (asg_class (op_inst o)) as [x|] eqn:Eo; destruct (asg_class (op_inst c)) as [y|] eqn:Ec;
+    apply check_accept in H.
+  - apply str_eqb_spec in H. subst y. reflexivity.
+  - apply oname_eqb_spec in H. rewrite H in Eo. congruence.
+  - apply oname_eqb_spec in H. rewrite H in Eo. congruence.
+  - apply oname_eqb_spec in H. assumption.
 Qed.
 
 Lemma cmp_pin_accept_key xo xc io ic o c : cmp_pin xo xc io ic o c = Accept ->
@@ -316,7 +313,8 @@ Proof.
   destruct (resolve xo io o) as [qo bo|po| |]; destruct (resolve xc ic c) as [qc bc|pc| |]; try discriminate H.
   - apply inner_equiv_sound in H as [-> ->]. eauto.
   - apply seq_accept in H as [H1 H2]. apply inner_equiv_sound in H2 as [Hb Hq].
-    destruct (inst_equiv_accept_key _ _ H1) as [k [-> ->]]. rewrite Hb, Hq. eauto.
+    rewrite (inst_equiv_accept_key _ _ H1), Hb, Hq. eauto.
+  - eauto.
 Qed.
 
 Theorem zip_accept_still_accepted xo xc io ic : forall wo wc, length wo = length wc ->
